@@ -66,9 +66,11 @@ let table = ref []
 let mask = ref None
 
 let do_op o =
+  let before = List.length (entries !cur) in
   let (st', r) = step !cur o in
   cur := st';
-  print_endline (show_out r ^ " | " ^ show_sout (abstract r) ^ " | " ^ show_sout (spec !table o) ^ " | " ^ b2s (allowed !table o))
+  print_endline (show_out r ^ " | " ^ show_sout (abstract r) ^ " | " ^ show_sout (spec !table o) ^ " | " ^ b2s (allowed !table o)
+                 ^ " | " ^ b2s (List.length (entries st') <> before))
 
 let item_of_tok t =
   let rest = String.sub t 1 (String.length t - 1) in
@@ -111,6 +113,7 @@ let () =
             (match to_values m (z_of_hex z) with
              | Inl l -> print_endline ("L " ^ show_members l) | Inr e -> print_endline ("X " ^ show_err e)))
        | ["A"; v; s] -> do_op (OpCall (z_of_hex v, s = "1"))
+       | ["P"; v; s] -> do_op (OpCall (z_of_hex v, s = "1"))
        | ["RT"; items] ->
           (match !mask with None -> print_endline "nomask" | Some m ->
             let its = List.map item_of_tok (split_on ',' items) in
